@@ -270,6 +270,16 @@ def jit_family():
     for lit in ["1", "2", "3", "10", "100"]:
         for a in ["0", "9223372036854775807", "-9223372036854775808", "9223372036854775808", "1.5", "1/2", "\"s\""]:
             P.append(["(define (f x) (list (+ x %s) (- x %s) (< x %s) (= x %s)))" % (lit, lit, lit, lit), "(with-handler (lambda (e) 'err) (f %s))" % a])
+    # literal operand x values one and two steps inside the fixnum boundaries (a helper specialised for small literals may reason about
+    # overflow for 0 and 1 only), reached directly, through map and from another compiled function
+    near = ["9223372036854775806", "9223372036854775805", "-9223372036854775807", "-9223372036854775806", "4611686018427387903", "-4611686018427387905"]
+    for lit in ["0", "1", "2", "3"]:
+        for a in near:
+            body = "(list (+ x %s) (- x %s) (- %s x) (< x %s) (= x %s))" % (lit, lit, lit, lit, lit)
+            P.append(["(define (f x) %s)" % body, "(with-handler (lambda (e) 'err) (f %s))" % a])
+            P.append(["(define (f x) %s)" % body, "(with-handler (lambda (e) 'err) (car (map f (list %s))))" % a])
+            P.append(["(define (f x) %s)" % body, "(define (g y) (car (list (f y))))", "(with-handler (lambda (e) 'err) (g %s))" % a])
+            P.append(["(define (f x acc) (if (null? acc) (f x (cons (- x %s) acc)) (cons (+ x %s) acc)))" % (lit, lit), "(with-handler (lambda (e) 'err) (f %s '()))" % a])
     # loops that run long enough to matter, with captured / boxed state
     P += [
         ["(define (sum n) (let loop ((i 0) (acc 0)) (if (= i n) acc (loop (+ i 1) (+ acc i)))))", "(sum 1000)"],
